@@ -117,7 +117,7 @@ myth_tls_call_destructors_rec(myth_tls_tree_node_t * n,
     for (i = 0; i < myth_tls_tree_node_n_entries_in_leaf; i++, k++) {
       void * val = n->entries[i].value;
       void (*destructor)(void *) = ka->keys[k].destructor;
-      if (destructor) {
+      if (destructor && val) {
 	n->entries[i].value = 0;
 	destructor(val);
 	s++;
@@ -135,9 +135,10 @@ myth_tls_call_destructors_rec(myth_tls_tree_node_t * n,
     int c_base = base;
     for (i = 0; i < myth_tls_tree_node_n_children; i++) {
       myth_tls_tree_node_t * c = n->children[i];
-      if (!c) break;
-      s += myth_tls_call_destructors_rec(c, depth + 1, c_base, c_stride, ka);
-      c_base += stride;
+      if (c) {
+	s += myth_tls_call_destructors_rec(c, depth + 1, c_base, c_stride, ka);
+      }
+      c_base += c_stride;
     }
     return s;
   }
